@@ -590,8 +590,17 @@ where
     C: Clone + std::fmt::Debug + Serialize,
     F: Fn(&C, &mut Stats) -> CheckResult,
 {
+    enumerate_n(property, kind, threads(), cases, f)
+}
+
+/// `enumerate` with a bound on the number of workers (memory-hungry cases).
+pub fn enumerate_n<C, F>(property: &str, kind: &str, nworkers: usize, cases: Vec<C>, f: F) -> SubRun
+where
+    C: Clone + std::fmt::Debug + Serialize,
+    F: Fn(&C, &mut Stats) -> CheckResult,
+{
     let seq = SUBRUN_SEQ.fetch_add(1, Ordering::SeqCst);
-    let n = threads().max(1).min(cases.len().max(1));
+    let n = nworkers.min(threads()).max(1).min(cases.len().max(1));
     let mut out = match worker_env() {
         Some((target, w, wn)) => {
             if target != seq {
@@ -600,7 +609,7 @@ where
             let (st, v, i) = enumerate_shard(property, kind, &cases, w, wn, &f);
             emit_and_exit(st, v, i)
         }
-        None if n == 1 || cases.len() < 32 => {
+        None if n == 1 || cases.len() < 8 => {
             let start = Instant::now();
             let (st, v, i) = enumerate_shard(property, kind, &cases, 0, 1, &f);
             SubRun { stats: st, violations: v.into_iter().collect(), inconclusive: i, exhaustive: false, wall_s: start.elapsed().as_secs_f64() }
